@@ -3,11 +3,16 @@
 pub mod alloc;
 pub mod case;
 pub mod checks;
+pub mod containers;
 pub mod crash;
 pub mod engine;
+pub mod fwd;
 pub mod gen;
 pub mod heap;
+pub mod layout;
+pub mod limits;
 pub mod ops;
+pub mod policy;
 pub mod run;
 pub mod world;
 
